@@ -256,7 +256,7 @@ Qed.
 
 (* ---------- lookup in association lists ---------- *)
 
-Lemma lookup_index c x i :
+Lemma lookup_index (c : list (name * value)) (x : name) i :
   index_of str_eqb x (map fst c) = Some i -> nth_error (map snd c) i = lookup x c.
 Proof.
   revert i; induction c as [|[y v] c IH]; simpl; intros i H; [discriminate|].
